@@ -658,19 +658,26 @@ def real_runs(ctx, solvers, T, add, guarded):
         Jd = lambda y, K=K, d=d: -K - 3 * np.diag(d * y * y)
         Fd = lambda y, K=K, d=d, g=g: -(K @ y) - d * y * y * y + g
         meth = getattr(solvers, name)
+        # start time: zero, positive, negative, non-dyadic; always passed through the public entry point
+        t0 = float(rng.choice([0.0, 0.5, -1.0, 0.3, -1.7, 2.5, 1.0e-3]))
+        t0kw = {} if (t0 == 0.0 and rng.integers(0, 2) == 0) else {'t0': t0}
         if mode == 'adaptive':
-            tau0 = float(rng.choice([2.0, 4.0, 1.0])); t_end = float(rng.choice([0.5, 1.0])); tol = float(rng.choice([1e-3, 1e-4]))
-            call = lambda: meth(Mobj, F, J, x0.copy(), tau0, t_end, tol)
+            tau0 = float(rng.choice([2.0, 4.0, 1.0])); t_end = t0 + float(rng.choice([0.5, 1.0])); tol = float(rng.choice([1e-3, 1e-4]))
+            call = lambda: meth(Mobj, F, J, x0.copy(), tau0, t_end, tol, **t0kw)
         else:
-            tau0 = float(rng.choice([0.125, 0.25, 0.0625])); t_end = tau0 * int(rng.integers(3, 6)); tol = None
+            tau0 = float(rng.choice([0.125, 0.25, 0.0625, 0.1]))
+            t_end = t0 + tau0 * (int(rng.integers(3, 6)) - float(rng.choice([0.0, 0.4])))     # on and off the grid
+            if rng.integers(0, 12) == 0:
+                t_end = t0 - 0.5                                                              # empty range
+            tol = None
             if name in ('crank_nicolson', 'sdirk3', 'sdirk3_b'):
-                call = lambda: meth(Mobj, F, J, x0.copy(), tau0, t_end)
+                call = lambda: meth(Mobj, F, J, x0.copy(), tau0, t_end, **t0kw)
             else:
-                call = lambda: meth(Mobj, F, J, x0.copy(), tau0, t_end, None)
+                call = lambda: meth(Mobj, F, J, x0.copy(), tau0, t_end, None, **t0kw)      # documented constant-step form tol=None
         with Recorder(solvers, fcount) as R:
             tag, out = guarded(call)
         desc = {'method': name, 'mode': mode, 'nonlinear': nonlinear, 'J_callback': jstyle if nonlinear else ('csr constant' if sparse_ else 'fresh'), 'M': M.tolist(), 'sparse': bool(sparse_), 'K': K.tolist(), 'd': d.tolist(),
-                'g': g.tolist(), 'x0': x0.tolist(), 'tau0': tau0, 't_end': t_end, 'tol': tol, 'F': 'F(y) = -K@y - d*y**3 + g, J(y) = -K - 3*diag(d*y**2)'}
+                'g': g.tolist(), 'x0': x0.tolist(), 'tau0': tau0, 't0': t0, 't0_passed_as_keyword': bool(t0kw), 't_end': t_end, 'tol': tol, 'F': 'F(y) = -K@y - d*y**3 + g, J(y) = -K - 3*diag(d*y**2)'}
         ctx.case(('run', name, mode, nonlinear, str(desc)), nontrivial=True)
         ctx.count('run:%s:%s' % (mode, ('nonlinear J=' + jstyle) if nonlinear else 'linear'))
         if tag != 'ok':
@@ -682,7 +689,7 @@ def real_runs(ctx, solvers, T, add, guarded):
         nrej = 0
         curF = None
         datas = set(id(c['data']) for c in R.calls)
-        if len(datas) != 1:
+        if len(datas) > 1:
             ctx.violation('ode-run:data-dict', '%s: the per-run `data` dict is not shared between the step calls' % name, desc, False)
         for k, c in enumerate(calls):
             o = c['out']
@@ -744,12 +751,34 @@ def real_runs(ctx, solvers, T, add, guarded):
         ctx.count('run: rejected steps', nrej)
         if mode == 'adaptive':
             ctx.count('adaptive runs with >=1 rejection', 1 if nrej else 0)
-            if not all(b_ > a_ for a_, b_ in zip(times, times[1:])) or not times[-1] >= t_end or len(times) != len(sols):
-                ctx.violation('ode-run:' + name, '%s adaptive run: times not strictly increasing up to t_end' % name, dict(desc, times=list(times)[:40]), True)
+            if not all(b_ > a_ for a_, b_ in zip(times, times[1:])) or not times[-1] >= t_end or len(times) != len(sols) or times[0] != t0:
+                ctx.violation('ode-run:' + name, '%s adaptive run: times do not start at t0 / are not strictly increasing up to t_end' % name, dict(desc, times=list(times)[:40]), True)
+            # the controller of the model (adaptLoop, Float) driven by the recorded stepper calls: bit-exact times
+            q_ = T.closure(meth).get('err_order')
+            script = []
+            acc = 0
+            for k, c in enumerate(R.calls):
+                o = c['out']
+                if o is None:
+                    script.append((acc, c['tau'], 0, 0.0)); continue
+                dd = tol + tol * abs(c['x'])
+                r_ = float(np.linalg.norm((np.ravel(o[1]) - np.ravel(o[0])) / dd) / np.sqrt(len(c['x'])))
+                script.append((acc, c['tau'], 1, r_))
+                nxt = R.calls[k + 1]['x'] if k + 1 < len(R.calls) else np.asarray(sols[-1], dtype=float)
+                if np.array_equal(np.ravel(o[0]), np.ravel(nxt)) and not np.array_equal(np.ravel(o[0]), c['x']):
+                    acc += 1
+            if q_ and len(script) <= 400:
+                add('adaptr %d %d %d %d %d %d %s' % (q_, bits(0.9), bits(tau0), bits(t_end), bits(t0), len(script) + 5,
+                                                     plist(script, lambda e: '%d %d %d %d' % (e[0], bits(e[1]), e[2], bits(e[3])))),
+                    ('adaptr', desc, [float(t) for t in times], len(sols), script))
         else:
-            nst = int(math.ceil(t_end / tau0))
-            if list(times) != [k * tau0 for k in range(nst + 1)] or len(sols) != nst + 1:
-                ctx.violation('ode-run:' + name, '%s constant run: times %s' % (name, list(times)[:8]), desc, True)
+            nst = max(0, int(math.ceil((t_end - t0) / tau0)))
+            if list(times) != [t0 + k * tau0 for k in range(nst + 1)] or len(sols) != nst + 1:
+                ctx.violation('ode-run:' + name, '%s constant run (t0=%r, tau=%r, t_end=%r%s): %d times %s..%s, %d states; expected %d times t0+k*tau' % (
+                    name, t0, tau0, t_end, ', tol=None' if name not in ('crank_nicolson', 'sdirk3', 'sdirk3_b') else '', len(times),
+                    list(times)[:3], list(times)[-1:], len(sols), nst + 1), dict(desc, times=list(times)[:40]), True)
+            # the model's constant driver (Float instantiation: same double arithmetic) on the same (t0, tau, t_end)
+            add('constf %d %d %d' % (bits(t0), bits(tau0), bits(t_end)), ('constr', desc, [float(t) for t in times], len(sols)))
 
 
 def compare(ctx, solvers, r, g, m, tabs):
@@ -871,6 +900,35 @@ def compare(ctx, solvers, r, g, m, tabs):
             return None
         v = oracle_verdict()
         return ('ode-corr:ros', 'rosenbrock_step disagrees with the model on: ' + ', '.join(problems) + ('; ' + v if v else ''), replay_ros(m), v is not None)
+    if op == 'constr':
+        _, cdesc, times, nsols = m
+        mt = parse_bits(g.split(' | ')[0])
+        mstates = int(g.split(' | ')[1])
+        problems = []
+        if len(mt) != len(times) or nsols != mstates:
+            problems.append('%d times / %d states, model %d / %d' % (len(times), nsols, len(mt), mstates))
+        else:
+            for k, (a, e) in enumerate(zip(times, mt)):
+                if a != e:
+                    problems.append('time %d is %r, model %r' % (k, a, e)); break
+        if not problems:
+            return None
+        return ('ode-corr:const-run', '%s constant-step run (public entry point, t0=%r) disagrees with the model driver: %s' % (
+            cdesc['method'], cdesc['t0'], '; '.join(problems)), dict(cdesc, implementation_times=times[:40], model_times=[float(e) for e in mt][:40]), True)
+    if op == 'adaptr':
+        _, cdesc, times, nsols, script = m
+        if g.startswith('err'):
+            return ('ode-corr:adapt-run', '%s adaptive run: the model controller asks for a step the implementation never made (%s)' % (cdesc['method'], g),
+                    dict(cdesc, implementation_times=times[:40], recorded_calls=script[:40]), False)
+        parts = g.split(' | ')
+        want = plist(times, lambda v: str(bits(v)))
+        if parts[0] == want and nsols == len(times) and parts[2].strip() == '0':
+            return None
+        mt = parse_bits(parts[0])
+        return ('ode-corr:adapt-run', '%s adaptive run (t0=%r): times differ from the model controller driven by the recorded steps (%d vs %d entries, first %s vs %s)' % (
+            cdesc['method'], cdesc['t0'], len(times), len(mt), times[:3], mt[:3]),
+            dict(cdesc, implementation_times=times[:40], model_times=mt[:40], recorded_calls=script[:40]),
+            len(times) != nsols or times[0] != cdesc['t0'])
     if op == 'rosf':
         _, cdesc, A, G, b, bh, M, Fd, Jd, x, tau, out = m
         parts = g[3:].split(' | ')
